@@ -272,3 +272,71 @@ Example ex_instances :
   (* the store is not a no-op on its own instance *)
   @is_filter (ft_set [] (s "formal") CWrap) (s "formal") = true /\ @is_filter [] (s "formal") = false.
 Proof. vm_compute. repeat split; reflexivity. Qed.
+
+(* a loop over dict items of which only SOME carry the key the body names: the item that lacks it leaves
+   {{email}} behind.  The hypotheses of c12_rendered_unbound_var_reported / c12_strict_unbound_is_error are
+   met (the variable is among the expanded blocks although another item binds it); strict mode raises,
+   lenient mode renders it as written with the warning; when every item carries the key nothing is reported *)
+Definition ex_team : template :=
+  [NLeaf (LText (s "Team:"));
+   NEach (s " ") (s "users") [LText (s " "); LVar (s "name"); LText (s " <"); LVar (s "email"); LText (s ">;")]].
+Definition ex_users : ctx :=
+  [(s "users", VList [IDict [(s "name", s "ann"); (s "email", s "a@x")]; IDict [(s "name", s "bob")]])].
+Example ex_partial_key :
+  ctx_ok ex_users = true /\ well_formed ex_team = true /\
+  In (LVar (s "email")) (blocks ex_users ex_team) /\ lookup ex_users (s "email") = None /\
+  render_impl true [] ex_users (print ex_team) = Err (EMissing (s "email")) /\
+  render_spec true [] ex_users ex_team = SErr (EMissing (s "email")) /\
+  render_impl false [] ex_users (print ex_team) =
+    Ok (s "Team: ann <a@x>; bob <{{email}}>;") [WUnbound (s "email")] /\
+  render_impl true [] [(s "users", VList [IDict [(s "name", s "ann"); (s "email", s "a@x")]])] (print ex_team) =
+    Ok (s "Team: ann <a@x>;") [] /\
+  (* the same through an include *)
+  render_impl true (print_templates [(s "team", ex_team)]) ex_users (print [NLeaf (LInc (s "team"))]) =
+    Err (EMissing (s "email")).
+Proof. vm_compute. repeat split; auto 15. Qed.
+
+(* hand-written codons.  "{{a}} and {{b}}" with codons that declare only a: b is not checked up front, the
+   simple pass reports it (strict: error).  Codons that declare a name the sequence never uses, a non-variable
+   codon or an optional one report nothing; codons that declare b report it up front as well.  The text is the
+   same whatever is declared. *)
+Definition ex_ab : template := [NLeaf (LVar (s "a")); NLeaf (LText (s " and ")); NLeaf (LVar (s "b"))].
+Definition ex_a1 : ctx := [(s "a", VStr (s "1"))].
+Example ex_declared_codons :
+  In (LVar (s "b")) (blocks ex_a1 ex_ab) /\ lookup ex_a1 (s "b") = None /\
+  render_impl_decl true [] ex_a1 (print ex_ab) [(CtVariable, s "a", true)] = Err (EMissing (s "b")) /\
+  render_impl_decl false [] ex_a1 (print ex_ab) [(CtVariable, s "a", true)] =
+    Ok (s "1 and {{b}}") [WUnbound (s "b")] /\
+  render_impl_decl false [] ex_a1 (print ex_ab)
+    [(CtVariable, s "zz", true); (CtLoop, s "b", true); (CtVariable, s "b", false)] =
+    Ok (s "1 and {{b}}") [WUnbound (s "b")] /\
+  render_impl_decl false [] ex_a1 (print ex_ab) [(CtVariable, s "b", true); (CtVariable, s "b", true)] =
+    Ok (s "1 and {{b}}") [WMissing (s "b"); WMissing (s "b"); WUnbound (s "b")] /\
+  render_impl false [] ex_a1 (print ex_ab) = Ok (s "1 and {{b}}") [WMissing (s "b"); WUnbound (s "b")] /\
+  render_passes false [] ex_a1 (print ex_ab) = Ok (s "1 and {{b}}") [WUnbound (s "b")] /\
+  required_of [(CtVariable, s "zz", true); (CtLoop, s "b", true); (CtVariable, s "b", false)] (print ex_ab) = [s "zz"] /\
+  required_of [] (print ex_ab) = [s "a"; s "b"] /\
+  snd (render_taint_decl true [] ex_a1 (print ex_ab) [(CtVariable, s "a", true)]) = [].
+Proof. vm_compute. repeat split; auto. Qed.
+
+(* c12_strict_any_codons is not vacuous, and says more than c12_strict_loop_vars: {{m}} stands in an
+   if-branch that is not taken.  The auto-detected codons over-report it in strict mode; codons that do not
+   declare it let strict mode render the reference expansion *)
+Definition ex_branch : template :=
+  [NIf (s " ") (s "flag") [LVar (s "m")] (Some [LText (s "no ")]); NLeaf (LVar (s "a"))].
+Example ex_strict_any_codons :
+  render_spec true [] ex_a1 ex_branch = SOk (s "no 1") [] /\
+  required_of [(CtVariable, s "a", true)] (print ex_branch) = [s "a"] /\ lookup ex_a1 (s "a") <> None /\
+  render_impl_decl true [] ex_a1 (print ex_branch) [(CtVariable, s "a", true)] = Ok (s "no 1") [] /\
+  render_impl true [] ex_a1 (print ex_branch) = Err (EMissing (s "m")).
+Proof. vm_compute. repeat split; auto. discriminate. Qed.
+
+(* a history with an mRNA object carrying hand-written codons: nothing of it stays on the instance *)
+Example ex_history_codons :
+  map res_outcome
+      (run_ops (mkInstance [] [] true 0)
+         [OpRenderDecl ex_ab [(CtVariable, s "a", true)] ex_a1;
+          OpRenderDecl ex_ab [(CtVariable, s "a", true)] [(s "a", VStr (s "1")); (s "b", VStr (s "2"))];
+          OpRender ex_ab ex_a1]) =
+  [Some (Err (EMissing (s "b"))); Some (Ok (s "1 and 2") []); Some (Err (EMissing (s "b")))].
+Proof. vm_compute. reflexivity. Qed.
